@@ -129,7 +129,7 @@ theorem drop_middle (t : Rat) (acc : Option Rat) (p c n : Entry) (r : List Entry
         rw [ht.1, ht.2]; intro h; exact hT (Rat.le_antisymm h.2 h.1)
       simp [segStep, n1, n2, n3]
 
-/-- the table does not end with a zero-length `hold` segment (the class of open finding PF-26 lies
+/-- the table does not end with a zero-length `hold` segment (the class of open finding PF-C08c lies
 inside the complement) -/
 def endOk : List Entry → Prop
   | [a, b] => b.interp ≠ .hold ∨ a.t ≠ b.t
@@ -291,7 +291,7 @@ theorem getLast_append_single (xs : List Entry) (l : Entry) : (xs ++ [l]).getLas
   simp
 
 /-- `from_table` samples like the plain `TableWaveform` of the same entries, unless the table ends
-with a zero-length `hold` segment (open finding PF-26 lies in that class) -/
+with a zero-length `hold` segment (open finding PF-C08c lies in that class) -/
 theorem smart_table_aux (ch : Chan) (raw : List Entry) (s : Wf) (h : fromTable ch raw = .ok s)
     (hend : endOk raw) : SamplesAlike s (.table ch raw) := by
   simp only [fromTable] at h
